@@ -24,6 +24,7 @@ func main() {
 	shards := fs.Int("shards", 16, "number of trace shards")
 	fam := fs.String("family", "", "value family")
 	only := fs.Int("only", -1, "run only this event id")
+	frac := fs.Int("frac", 1, "sweep every frac-th value only (testing)")
 	mode := fs.String("mode", "exact", "exact|vary")
 	vectors := fs.String("vectors", "", "file of TLC-generated vectors (one JSON object per line)")
 	fs.Parse(os.Args[2:])
@@ -55,6 +56,8 @@ func main() {
 			repo = "/repo"
 		}
 		runInventory(repo, *out)
+	case "sweep":
+		runSweep(*fam, *vectors, *tier, *out, *seed, *shards, *frac)
 	case "poolseq":
 		runPoolSeq(*vectors, *out, *shards, *only)
 	case "poolconc":
